@@ -19,8 +19,10 @@ MUTABLE_TRIAL = ('ACTIVE', 'STOPPING')
 STUB = 'VVSTUB'
 STUB_NS = 'vvstub'
 
-_STUDY_RE = re.compile(r'^owners/([^/]+)/studies/([^/]+)$')
-_TRIAL_RE = re.compile(r'^owners/([^/]+)/studies/([^/]+)/trials/(\d+)$')
+# a trial id has one spelling (the one the service hands out): ASCII digits, no sign,
+# no padding, nothing after it ('$' would let a trailing newline through)
+_STUDY_RE = re.compile(r'^owners/([^/]+)/studies/([^/]+)\Z')
+_TRIAL_RE = re.compile(r'^owners/([^/]+)/studies/([^/]+)/trials/(0|[1-9][0-9]*)\Z')
 _OP_RE = re.compile(r'^owners/([^/]+)/studies/([^/]+)/suggestion_operations|^owners/')
 
 
